@@ -207,6 +207,33 @@ claim("C09",
       "which step covers which requested time, interval boundaries, number of steps performed (value-level)",
       "DESIGN.md section 6 C09")
 
+claim("C02",
+      "In the tau-leap and Gillespie engines each diffusion move is one removal and one addition of the same amount of "
+      "the same species, the destination being the neighbour-table entry of (source cell, the move's direction), "
+      "separated only by the chemostat tests of their own entries; the Euler flux subtracted for an interface is the "
+      "neighbour's flux in the opposed direction, the interface diffusivity is symmetric in the two cells and kd_in is "
+      "kd_out with the volumes exchanged (exact rational normal forms); in all six engines the stoichiometric row is the "
+      "updated species' own and the firing count does not depend on the species variable; only the apply functions "
+      "write the state.",
+      "static analysis: update summaries with must-facts over the Clang AST (UPD), polynomial identity of indices, "
+      "rational-function normal forms (GVN) for symmetry, effect inventory",
+      "floating-point exactness of the deterministic sums",
+      "DESIGN.md section 6 C02")
+
+claim("C07",
+      "Structure of a legal step only: on every path through DrawAndApplyEvent (path-sensitive in its boolean flags) at "
+      "most one event is applied; diffusion events move exactly one molecule and reaction events add sto[s, r]; the "
+      "entry decremented is the source whose amount enters the propensity of the same (cell, species, direction) and the "
+      "applied channel is the one just accumulated by the search; ReactionProp is the falling factorial with trip count "
+      "and sufficiency test at the same sub[s, r], zero when insufficient; every propensity is added once to its cell's "
+      "partial sum and once to a0 and the searches walk the index sets that were summed; tau-leap counts are "
+      "Poisson(propensity x dt) stored and applied at one index; propensities are rates and Poisson means pure numbers "
+      "(dimensional analysis modulo amount).",
+      "static analysis: path-sensitive path-fact engine, update summaries, loop-bound agreement of sum and search, "
+      "dimensional abstract interpretation (DIM)",
+      "the statistics (waiting-time and choice distributions, Poisson law), non-negativity, strict increase of time",
+      "DESIGN.md section 6 C07")
+
 NOT_YET = {}
 
 def main():
